@@ -776,18 +776,39 @@ def _p_annot_call(tree, ln, col, det, ctxd):
 
 
 def _p_string_position(tree, ln, col, det, ctxd):
+    """(ln, col) is the position of a node *inside* some annotation string: a quoted annotation, or — under
+    `from __future__ import annotations` — the text Python stores for an unquoted one (ast.unparse of the expression)."""
     if ln is None or col is None:
         return False
-    for a in annotation_exprs([tree]):
-        pass
-    for n in ast.walk(tree):
-        if isinstance(n, ast.Constant) and isinstance(n.value, str):
-            try:
-                inner = ast.parse(n.value, mode="eval")
-            except SyntaxError:
-                continue
-            if any(getattr(c, "lineno", None) == ln and getattr(c, "col_offset", None) == col for c in ast.walk(inner)):
+    texts = [n.value for n in ast.walk(tree) if isinstance(n, ast.Constant) and isinstance(n.value, str)]
+    future = any(isinstance(n, ast.ImportFrom) and n.module == "__future__" and any(a.name == "annotations" for a in n.names) for n in tree.body)
+    if future:
+        for n in ast.walk(tree):
+            anns = []
+            if isinstance(n, ast.arg) and n.annotation is not None:
+                anns.append(n.annotation)
+            if isinstance(n, (ast.FunctionDef, ast.AsyncFunctionDef)) and n.returns is not None:
+                anns.append(n.returns)
+            if isinstance(n, ast.AnnAssign):
+                anns.append(n.annotation)
+            for a in anns:
+                try:
+                    texts.append(ast.unparse(a))
+                except Exception:
+                    pass
+    seen = 0
+    while texts and seen < 4000:
+        t = texts.pop()
+        seen += 1
+        try:
+            inner = ast.parse(t, mode="eval")
+        except (SyntaxError, ValueError, RecursionError):
+            continue
+        for c in ast.walk(inner):
+            if getattr(c, "lineno", None) == ln and getattr(c, "col_offset", None) == col:
                 return True
+            if isinstance(c, ast.Constant) and isinstance(c.value, str) and c.value != t:
+                texts.append(c.value)
     return False
 
 
@@ -923,6 +944,8 @@ KNOWN_CLASSES = [
      lambda t, ln, col, d, c: any(isinstance(n, (ast.For, ast.While)) and any(isinstance(a, ast.Assign) and isinstance(a.targets[0], ast.Name) and
                                                                               any(isinstance(x, ast.Name) and x.id == a.targets[0].id for x in ast.walk(a.value))
                                                                               for a in ast.walk(n)) for n in t.body)),
+    ("typeAliasBoolability", ("internal_error",), lambda s, d: s == ("AssertionError", "boolability.py::_get_boolability_no_mvv") and "TypeAliasValue" in d.get("tail", ""),
+     lambda t, ln, col, d, c: any(isinstance(n, ast.TypeAlias) for n in ast.walk(t))),
     ("newTypeOfNonClass", ("internal_error",), lambda s, d: s == ("AttributeError", "typeshed.py::_get_info_for_name"), _p_newtype_nonclass),
     ("stringAnnotationPosition", ("bad-col", "bad-line"), lambda s, d: True, _p_string_position),
     ("starArgsSelfNodeMissing", ("bad-line",), lambda s, d: d.get("lineno") is None,
